@@ -2,6 +2,7 @@ import LunarVerif.Proofs.C12Cache
 import LunarVerif.Proofs.C12Abs
 import LunarVerif.Proofs.C12Plugins
 import LunarVerif.Proofs.C12Throttle
+import LunarVerif.Proofs.C12Live
 /-!
 # C12 — Stored responses are replayed only for the same key and only while fresh
 
@@ -127,6 +128,31 @@ theorem refines_abstract_map (c : Cache κ ν) (ev : Ev κ ν) :
     (∀ k, get c k = (abs c).lookup c.now k) ∧ (∀ k, has c k = ((abs c).lookup c.now k).isSome) :=
   ⟨abs_step c ev, abs_get c, abs_has c⟩
 
+/-- Converse (no spurious miss): store `k ↦ v` with a positive TTL while no sleeper of `k` is pending; then,
+    through ANY later operations that neither overwrite nor delete `k` (other keys, clock moves, sleepers of
+    any key firing at any time ≥ their due time), `get k` returns `v` at every instant before the expiry.
+    So an early loss of an entry can only come from a stale sleeper of the same key (or `Del`/overwrite). -/
+theorem fresh_hit_without_stale_sleeper (c : Cache κ ν) (k : κ) (v : ν) (ttl : Int) (sz : Nat)
+    (hok : (set c k v ttl sz).2 = .ok) (httl : ttl > 0) (hnostale : ∀ s, s ∈ c.pending → s.key ≠ k)
+    (evs : List (Ev κ ν)) (hev : ∀ ev, ev ∈ evs → touchesKey k ev = false)
+    (hfresh : (final (set c k v ttl sz).1 evs).now < c.now + ttl) :
+    get (final (set c k v ttl sz).1 evs) k = some v := by
+  have hroom : ¬ (c.sizeOn = true ∧ c.tracked + (sz : Nat) > c.max) := by
+    intro h; rw [set_eq_full k v ttl sz h] at hok; cases hok
+  have hinit : Live k v (c.now + ttl) sz (set c k v ttl sz).1 := by
+    rw [set_eq_pos k v ttl sz hroom httl]
+    left
+    refine ⟨by simp [find?], ?_⟩
+    intro s hs hsk
+    rcases mem_insertSleeper hs with h1 | h1
+    · rw [h1]
+    · exact absurd hsk (hnostale s h1)
+  rcases live_final evs _ hinit hev with ⟨hf, _⟩ | hpast
+  · simp only [get, hf]
+    have : ¬ (final (set c k v ttl sz).1 evs).now > c.now + ttl := by omega
+    simp [this]
+  · omega
+
 end
 
 /-! ### non-vacuity (raw cache): hits, boundary, stale sleeper, size refusal on concrete runs -/
@@ -140,6 +166,13 @@ example : ((run (Cache.init 100 true 10 : Cache Nat Nat)
     (a miss, never a wrong hit) and the tracked size keeps the overwritten 3 bytes. -/
 example : (let c := final (Cache.init 0 true 10 : Cache Nat Nat) [.set 1 7 5 3, .skip 6, .set 1 8 5 2, .fire 0]
     (get c 1, c.tracked, heldSize c.entries, c.pending.length)) = (none, 3, 0, 1) := by decide
+
+/-- hypotheses of `fresh_hit_without_stale_sleeper` met: other key stored and expired, its sleeper fired late,
+    clock moved to one ns before the expiry — still a hit. -/
+example : (let c0 : Cache Nat Nat := Cache.init 0 true 10
+    let evs : List (Ev Nat Nat) := [.set 2 9 1 1, .skip 3, .fire 0, .skip 1]
+    ((set c0 1 7 5 3).2, evs.all fun ev => !touchesKey 1 ev, (final (set c0 1 7 5 3).1 evs).now,
+      get (final (set c0 1 7 5 3).1 evs) 1)) = (.ok, true, 4, some 7) := by decide
 
 /-- the size test refuses the store that would exceed the maximum. -/
 example : ((run (Cache.init 0 true 4 : Cache Nat Nat) [.set 1 7 5 3, .set 2 8 5 2, .get 2]).map fun r =>
